@@ -17,6 +17,7 @@ import (
 	"verifharness/props/c08"
 	"verifharness/props/c09"
 	"verifharness/props/c10"
+	"verifharness/props/c11"
 	"verifharness/props/c12"
 	"verifharness/props/c13"
 	"verifharness/props/c14"
@@ -29,6 +30,7 @@ import (
 )
 
 var props = map[string]func(*core.Ctx) int{
+	"C11": c11.Run,
 	"C16": c16.Run,
 	"C15": c15.Run,
 	"C14": c14.Run,
